@@ -97,6 +97,24 @@ pub fn run(out: &mut Out, rng: &mut Rng, thorough: bool) {
     out.rec(&format!("bsdthreshold {}", d), &optf(t));
     match t { Some(t) => ths.push(t), None => { out.violation("C16:bsd:threshold", format!("depth={}", d), "a threshold".into(), "none".into()); ths.push(f64::NAN); } }
   }
+  // the table against its documented definition: distance from (0, transition latitude), the W corner of the cell
+  // (base cell 0, x = 0, y = nside - 1), to the nearest point of the NE edge of that cell, recomputed from the
+  // cell-border path of the implementation (4096 points on the side, parabolic refinement is not needed at 1e-3)
+  for d in 0..=29u8 {
+    let l = get_or_create(d);
+    let h: u64 = 0xAAAA_AAAA_AAAA_AAAAu64 & ((1u64 << (2 * d as u32)) - 1).max(0);
+    let w = (0.0f64, TRANSITION_LATITUDE);
+    let side = catch(|| l.path_along_cell_side(h, &cdshealpix::compass_point::Cardinal::E, &cdshealpix::compass_point::Cardinal::N, true, 4096));
+    if let Some(side) = side {
+      let geo = side.iter().map(|q| hav(*q, w)).fold(f64::INFINITY, f64::min);
+      out.evaluations += 1;
+      out.stat("C16:bsd:table-vs-geometry");
+      let t = ths[d as usize];
+      if !((t - geo).abs() <= 1e-3 * geo) {
+        out.violation("C16:bsd:table-entry", format!("depth={} table entry {:e} ({})", d, t, fbits(t)), format!("{:e} (edge-to-opposite-edge distance of cell {} recomputed from its border, rel. tol. 1e-3)", geo, h), format!("{:e}", t));
+      }
+    }
+  }
   for d in 1..30 { if !(ths[d] < ths[d - 1]) { out.violation("C16:bsd:table-not-decreasing", format!("depth={}", d), format!("< {}", ths[d - 1]), ths[d].to_string()); } }
   for k in 0..(if thorough { 200_000 } else { 20_000 }) {
     let r = match k % 4 {
